@@ -205,8 +205,9 @@ class CallNode(Node):
         )
         # The macro body has its own variable scope, but the macros defined in
         # the template stay callable from it: a macro may call another macro,
-        # or itself, up to the context depth limit.
-        macro_context.tag_namespace["macros"] = context.tag_namespace["macros"]
+        # or itself, up to the context depth limit. The body gets a copy of the
+        # registry: a macro defined inside the body is not visible to the caller.
+        macro_context.tag_namespace["macros"] = dict(context.tag_namespace["macros"])
 
         try:
             return macro.block.render(macro_context, buffer)
@@ -255,7 +256,7 @@ class CallNode(Node):
             disabled_tags=self.disabled_tags,
             carry_loop_iterations=True,
         )
-        macro_context.tag_namespace["macros"] = context.tag_namespace["macros"]
+        macro_context.tag_namespace["macros"] = dict(context.tag_namespace["macros"])
 
         try:
             return await macro.block.render_async(macro_context, buffer)
